@@ -1,0 +1,50 @@
+//go:build verif
+
+package bridgesync
+
+import (
+	"context"
+
+	"github.com/agglayer/aggkit/log"
+	"github.com/agglayer/aggkit/sync"
+	"github.com/agglayer/aggkit/tree"
+	aggkittypes "github.com/agglayer/aggkit/types"
+	"github.com/ethereum/go-ethereum/common"
+)
+
+// Hooks for the verification harness (build tag verif): thin wrappers, no logic of their own.
+
+// VerifSetClaimCalldata exposes Claim.setClaimCalldata.
+func VerifSetClaimCalldata(c *Claim, client aggkittypes.RPCClienter, bridge common.Address,
+	txHash common.Hash, logger *log.Logger) error {
+	return c.setClaimCalldata(client, bridge, txHash, logger)
+}
+
+// VerifProcessor gives the harness access to the unexported processor.
+type VerifProcessor struct{ P *processor }
+
+// VerifNewProcessor builds a processor on dbPath exactly as newBridgeSync does.
+func VerifNewProcessor(dbPath string, name string, logger *log.Logger) (*VerifProcessor, error) {
+	p, err := newProcessor(dbPath, name, logger)
+	if err != nil {
+		return nil, err
+	}
+	return &VerifProcessor{P: p}, nil
+}
+
+func (v *VerifProcessor) ProcessBlock(ctx context.Context, b sync.Block) error {
+	return v.P.ProcessBlock(ctx, b)
+}
+func (v *VerifProcessor) Reorg(ctx context.Context, first uint64) error { return v.P.Reorg(ctx, first) }
+func (v *VerifProcessor) GetLastProcessedBlock(ctx context.Context) (uint64, error) {
+	return v.P.GetLastProcessedBlock(ctx)
+}
+func (v *VerifProcessor) IsHalted() bool                  { return v.P.isHalted() }
+func (v *VerifProcessor) ExitTree() *tree.AppendOnlyTree { return v.P.exitTree }
+func (v *VerifProcessor) Close() error                    { return v.P.db.Close() }
+
+// Facade returns a BridgeSync around the processor (no driver / downloader / clients): the exported
+// query entry points with their halted guards.
+func (v *VerifProcessor) Facade(originNetwork uint32) *BridgeSync {
+	return &BridgeSync{processor: v.P, originNetwork: originNetwork}
+}
